@@ -103,11 +103,9 @@ class AttrTokens:
         self.vals = []
 
     def tok(self, v):
-        k = _attr_key(v)
-        if k not in self.ids:
-            self.ids[k] = len(self.vals)
-            self.vals.append(v)
-        return self.ids[k]
+        # a stable token per value (independent of the order in which values are met)
+        import zlib
+        return zlib.crc32(repr(_attr_key(v)).encode())
 
     def enc(self, attrs):
         return [[str(k), self.tok(v)] for k, v in attrs.items()]
